@@ -421,6 +421,9 @@ pub fn run_case(case: &Case) -> Outcome {
             o.nontrivial = !linear || *noise_amp != 0.0 || v >= 3;
             if *noise_amp != 0.0 {
                 o.label("noisy");
+                if xs.windows(2).any(|w| w[0] == w[1]) {
+                    o.label("noisy-replicated-abscissae");
+                }
             }
             let res = call_dispatch(v, model, xs, &ys, &st, &prm, *fd, &calls);
             o.set("model_calls", calls.get());
@@ -458,6 +461,11 @@ pub fn run_case(case: &Case) -> Outcome {
             }
             let dfac = (1.0 + d_final / (2.0 * mu)).sqrt();
             let mut bound = 10.0 * (tol / lam).sqrt() * dfac + 1e-9 * pscale;
+            if !linear && bound > 0.1 * pscale {
+                // the estimate above linearises the model around the solution; for a non-linear model it says nothing
+                // once it allows a tenth of the parameter scale (nearly degenerate designs such as a e^{bx} + c, b ~ 0)
+                return o.discard("non-linear model: stopping-rule bound beyond the validity of the local analysis");
+            }
             if *fd {
                 // finite-difference Jacobian: O(h^2) error biases the stationary point on noisy data
                 bound += 40.0 * h * h * rnorm * pscale / lam.sqrt();
@@ -513,8 +521,9 @@ pub fn run_case(case: &Case) -> Outcome {
 
 fn xs_strategy(lo: usize, hi: usize) -> BoxedStrategy<Vec<f64>> {
     // spread abscissae: stratified over [-2,2] plus jitter, so that designs are well conditioned
-    (lo..=hi, proptest::collection::vec(gen::fl(0.0, 1.0), hi))
-        .prop_map(|(n, j)| (0..n).map(|i| -2.0 + 4.0 * (i as f64 + j[i]) / n as f64).collect())
+    // a third of the designs are snapped to a grid of width 0.25, 0.5 or 1: replicated measurements at the same abscissa
+    (lo..=hi, proptest::collection::vec(gen::fl(0.0, 1.0), hi), prop_oneof![4 => Just(0.0), 1 => Just(0.25), 1 => Just(0.5), 1 => Just(1.0)])
+        .prop_map(|(n, j, snap)| (0..n).map(|i| -2.0 + 4.0 * (i as f64 + j[i]) / n as f64).map(|x: f64| if snap > 0.0 { (x / snap).round() * snap } else { x }).collect())
         .boxed()
 }
 
@@ -533,9 +542,9 @@ fn strategy(_t: Tier) -> BoxedStrategy<Case> {
 pub fn run(opts: &Opts) -> i32 {
     let mut spec = Spec::new("C17", strategy, run_case);
     spec.cases = opts.tier.pick(6_000, 150_000);
-    spec.essential = vec![("linear_fit", 0.1), ("curve_fit_jac", 0.2), ("curve_fit", 0.2), ("noisy", 0.2), ("invalid", 0.03), ("gaussian", 0.05), ("logistic", 0.05), ("exponential", 0.05)];
+    spec.essential = vec![("linear_fit", 0.1), ("curve_fit_jac", 0.2), ("curve_fit", 0.2), ("noisy", 0.2), ("invalid", 0.03), ("gaussian", 0.05), ("logistic", 0.05), ("exponential", 0.05), ("noisy-replicated-abscissae", 0.05)];
     spec.max_discard_frac = 0.2;
-    spec.rule = "generated: linear_fit on 3-60 stratified abscissae in [-2,2], exactly linear or noisy (10^[-4,-1]), permuted order, mismatched lengths; curve_fit_jac / curve_fit on 6-60 abscissae with models linear in 1-4 parameters (polynomial and trigonometric bases, arbitrary starts in [-2,2]) and non-linear models a e^{bx}+c, gaussian, logistic (starts within 20% of the truth), noise 0 or 10^[-4,-2], tolerance 10^[-12,-6], damping 10^[-2,1], multiplier [1.1,5], h 10^[-4,-1]; designs with lambda_min(J^T J) < 1e-3 are discarded (counted); invalid: negative tolerance / h / damping, mismatched lengths. Oracle: normal equations, exact-linear reproduction, permutation invariance; model-call budget (termination); distance to the reference least-squares solution (harness Gauss-Newton with analytic Jacobian) <= 10 sqrt(tol/lambda_min) sqrt(1 + d/(2 mu_min)) + 1e-9 (d = final damping from the transliterated loop, mu_min = smallest eigenvalue of the diagonally scaled Gauss-Newton matrix) (+ 40 h^2 |r| term for finite differences); a failing curve_fit outcome that coincides with the harness's bug-compatible transliteration of the Levenberg-Marquardt loop (Jacobian = sum) is the recorded finding K1. Non-trivial = non-linear model, noisy data or >= 3 parameters (linear_fit: noisy or >= 10 points). Distinct = distinct case JSON.".into();
+    spec.rule = "generated: linear_fit on 3-60 stratified abscissae in [-2,2] (a third of all designs snapped to a grid of width 0.25/0.5/1, i.e. with replicated abscissae), exactly linear or noisy (10^[-4,-1]), permuted order, mismatched lengths; curve_fit_jac / curve_fit on 6-60 abscissae with models linear in 1-4 parameters (polynomial and trigonometric bases, arbitrary starts in [-2,2]) and non-linear models a e^{bx}+c, gaussian, logistic (starts within 20% of the truth), noise 0 or 10^[-4,-2], tolerance 10^[-12,-6], damping 10^[-2,1], multiplier [1.1,5], h 10^[-4,-1]; designs with lambda_min(J^T J) < 1e-3, and non-linear designs whose stopping-rule bound exceeds a tenth of the parameter scale, are discarded (counted); invalid: negative tolerance / h / damping, mismatched lengths. Oracle: normal equations, exact-linear reproduction, permutation invariance; model-call budget (termination); distance to the reference least-squares solution (harness Gauss-Newton with analytic Jacobian) <= 10 sqrt(tol/lambda_min) sqrt(1 + d/(2 mu_min)) + 1e-9 (d = final damping from the transliterated loop, mu_min = smallest eigenvalue of the diagonally scaled Gauss-Newton matrix) (+ 40 h^2 |r| term for finite differences); a failing curve_fit outcome that coincides with the harness's bug-compatible transliteration of the Levenberg-Marquardt loop (Jacobian = sum) is the recorded finding K1. Non-trivial = non-linear model, noisy data or >= 3 parameters (linear_fit: noisy or >= 10 points). Distinct = distinct case JSON.".into();
     spec.assumptions = vec!["reference least-squares solution by Gauss-Newton from the generating parameters".into(), "bug-compatible LM transliteration tracks the implementation bit-for-bit (same nalgebra calls)".into()];
     spec.max_shrink_iters = 400;
     run_spec(spec, opts)
